@@ -383,7 +383,7 @@ def _check_clamp(ctx: Ctx, res: RuleResult, c: Cls, fld: str, limit_attr: tuple[
                     why = "store is not guarded by `F is None or F > limit`"
                     while cur is not None and cur is not m.node:
                         if isinstance(cur, ast.If) and any(n is s for s in cur.body):
-                            ct = ctx.X.at(m, cur.test)
+                            ct = ctx.X.value_at(m, cur.test)
                             has_none = contains(ct, lambda s: s[0] == "cmp" and s[1] == "is" and s[3] == ("const", None) and s[2][0] == "attr" and s[2][2] == fld)
                             gt = False
                             for s in subterms(ct):
@@ -419,7 +419,7 @@ def _check_bound_order(ctx: Ctx, res: RuleResult, c: Cls) -> None:
             cur = parent(r_)
             while cur is not None and cur is not m.node:
                 if isinstance(cur, ast.If):
-                    ct = ctx.X.at(m, cur.test)
+                    ct = ctx.X.value_at(m, cur.test)
                     for s in subterms(ct):
                         if s[0] == "cmp" and s[1] in (">", "<"):
                             lo, hi = (s[2], s[3]) if s[1] == ">" else (s[3], s[2])
